@@ -10,6 +10,8 @@ inductive SIn
   | tl (l : TL)
   | lost
   | whenDisc (rid : Nat)
+  | onDisc (rid : Nat)
+  | reason (clean : Bool)
   | addL (name : Line) (lid cmdId : Nat)
   | remL (name : Line) (lid cmdId : Nat)
   deriving DecidableEq, Repr
@@ -30,6 +32,8 @@ def step (act : Nat → Act) (s : S) : SIn → S × List Out
       ({ s with acc := acc', q := r.1 }, r.2)
   | .lost => let r := lose s.q; ({ s with q := r.1 }, r.2)
   | .whenDisc rid => let r := whenDisc s.q rid; ({ s with q := r.1 }, r.2)
+  | .onDisc rid => let r := onDisc s.q rid; ({ s with q := r.1 }, r.2)
+  | .reason clean => ({ s with q := { s.q with clean := clean } }, [])
   | .addL n l c => let r := addListener s.q n l c; ({ s with q := r.1 }, r.2)
   | .remL n l c =>
     match removeListener s.q n l c with
